@@ -40,4 +40,21 @@ PROPS = {
                         "values are concrete: the unknown/residual branches of the Rust checkers accept unconditionally and are outside C11",
                         "an extension value is identified with the call of its constructor (its return type is its own extension type)"],
     },
+    "C09": {
+        "streams": [("c09", 2000, 200000)],
+        "definitional": False,
+        "rule": "one case = one generated schema: 1/3 plain gen_schema.rs worlds (JSON, fully qualified; also their library rendering as a Cedar-syntax input), "
+                "2/3 gen_schema_text.rs specs rendered by the harness's own printers as JSON and as Cedar text (1-3 namespaces incl. keywords as names, unqualified "
+                "references needing RFC 24/70 resolution, entity types named like primitives/extension types, common types named like extension types, __cedar:: escapes, "
+                "common types referencing common types, common/entity name clashes, attribute names / action ids / enum ids needing quotes, annotations, multi-name "
+                "declarations, cross-namespace memberOf/appliesTo, optional x nested records, tags, enums, empty namespaces, half-empty appliesTo, shape-by-common-type), "
+                "plus 18 fixed probes; per accepted input the four-way comparison A=B=A2 / C=D=C2 (PartialEq and canonical serialisation), core vs public API, 5 policies and "
+                ">=6 data items (conformant + single-fault) validated under original and translated schema, annotations compared on the fragments; model lines: the printer on "
+                "every type expression, the parser on printed / generated / single-token-mutated type expressions, name resolution probed end-to-end through a synthetic "
+                "schema with the same declared names; non-trivial = every model line, policy and datum, distinct by text",
+        "theorems": ["type_roundtrip", "type_roundtrip_json", "type_roundtrip_cedar_form", "resolve_stable", "envOK_needed_clash", "envOK_needed_shadow", "translation_preserves_types_partial"],
+        "assumptions": ["theorems cover type expressions and name resolution only; declarations, annotations, lexing/escapes, fmt.rs collision checks and ValidatorSchema construction are covered by the four-way differential run",
+                        "the model's tokens are produced from Rust's printed text by the harness's lexer (string literals unescaped by the real to_unescaped_string)",
+                        "resolution is observed end to end: the reply is read off the resolved type of a probe attribute in a synthetic schema"],
+    },
 }
